@@ -9,45 +9,24 @@ namespace Pydap.Dmr
 theorem datasetTree_find (pre : List (Str × Str)) (name : Str) (s : Spec)
     (hok : s.ok) (hres : refsResolve s) (hn : distinctNodes s) (hd : distinctDims s) :
     ∃ t, datasetTree (renderRoot pre name s) = .ok t ∧
-      ∀ pv ∈ specVars [] s, Forest.findVar (pv.1 ++ [pv.2.name]) t = some (expectVar pv.1 pv.2) := by
+      ∀ pv ∈ specVars [] s, Forest.findVar (nodePath pv) t = some (expectVar pv.1 pv.2) := by
   have hv := distinctVars_of_nodes s hok hn
-  have hnil : ∀ q ∈ ([] : List Str), plainName q := by intro q hq; cases hq
   unfold datasetTree
   rw [parseVars_render pre name s hok hres hv hd, getGroups_root pre name s hok]
   refine ⟨_, rfl, ?_⟩
   unfold buildTree
   simp only []
-  have hg : ((specGroups [] s).map pathStr).foldl (fun t g => insertAt (pathParts (quoteName g)) Leaf.group t) Forest.nil
-      = (specGroups [] s).foldl (fun t g => insertAt g Leaf.group t) Forest.nil := by
-    rw [List.foldl_map]
-    apply foldl_congr_mem
-    intro g hg t
-    rw [pathParts_pathStr g (specGroups_plain s hok [] hnil g hg)]
-  rw [hg]
-  have hvv : (expectVars s).foldl (fun t r => insertAt (pathParts (quoteName r.key)) (Leaf.var r) t)
-        ((specGroups [] s).foldl (fun t g => insertAt g Leaf.group t) Forest.nil)
-      = ((specVars [] s).map fun pv => (nodePath pv, expectVar pv.1 pv.2)).foldl (fun t v => insertAt v.1 (Leaf.var v.2) t)
-        ((specGroups [] s).foldl (fun t g => insertAt g Leaf.group t) Forest.nil) := by
-    unfold expectVars
-    rw [List.foldl_map, List.foldl_map]
-    apply foldl_congr_mem
-    intro pv hpv t
-    obtain ⟨h1, h2, _⟩ := specVars_mem s hok [] hnil pv hpv
-    simp only [expectVar, nodePath]
-    rw [pathParts_key pv.1 pv.2.name h1 h2.2.1]
-  rw [hvv]
+  rw [buildTree_spec s hok]
   have := buildTree_find (specGroups [] s) ((specVars [] s).map fun pv => (nodePath pv, expectVar pv.1 pv.2))
     (by simpa [distinctNodes, List.map_map, Function.comp_def] using hn)
-    (pf_spec s [] [] (Or.inl rfl))
-    (by
-      intro v hvm
-      obtain ⟨pv, hpv, rfl⟩ := List.mem_map.mp hvm
-      refine ⟨by simp [nodePath], ?_⟩
-      simp only [nodePath, List.dropLast_concat]
-      rcases specVars_parent s [] pv hpv with e | m
-      · exact Or.inl e
-      · exact Or.inr m)
+    (pf_spec s [] [] (Or.inl rfl)) (nodes_hvs s)
   intro pv hpv
   exact this (nodePath pv, expectVar pv.1 pv.2) (List.mem_map.mpr ⟨pv, hpv, rfl⟩)
+
+/-- `dataset[path]` for any spelling of the path whose components quote to the stored ones -/
+theorem getitemPath_parts (parts : List Str) (hs : ∀ q ∈ parts, segName q) (t : Forest) :
+    getitemPath (pathStr parts) t = Forest.findVar (parts.map quoteName) t := by
+  unfold getitemPath
+  rw [pathParts_pathStr parts hs]
 
 end Pydap.Dmr
